@@ -172,7 +172,7 @@ func (t *gnmiTarget) Set(ctx context.Context, source TargetSource) (*sdcpb.SetDa
 		if err != nil {
 			return nil, err
 		}
-		if jsonData != nil {
+		if !isEmptyJSON(jsonData) {
 			jsonBytes, err := json.Marshal(jsonData)
 			if err != nil {
 				return nil, err
@@ -190,7 +190,7 @@ func (t *gnmiTarget) Set(ctx context.Context, source TargetSource) (*sdcpb.SetDa
 		if err != nil {
 			return nil, err
 		}
-		if jsonData != nil {
+		if !isEmptyJSON(jsonData) {
 			jsonBytes, err := json.Marshal(jsonData)
 			if err != nil {
 				return nil, err
@@ -244,6 +244,20 @@ func (t *gnmiTarget) Set(ctx context.Context, source TargetSource) (*sdcpb.SetDa
 		})
 	}
 	return schemaSetRsp, nil
+}
+
+// isEmptyJSON reports whether the JSON rendering of a change carries nothing to write
+// (ToJson / ToJsonIETF render a tree without new or updated entries as an empty object, not as nil).
+func isEmptyJSON(jsonData any) bool {
+	switch j := jsonData.(type) {
+	case nil:
+		return true
+	case map[string]any:
+		return len(j) == 0
+	case []any:
+		return len(j) == 0
+	}
+	return false
 }
 
 func (t *gnmiTarget) Status() *TargetStatus {
